@@ -527,10 +527,35 @@ func c05MGen(r *vfRand, adv bool) c05MIn {
 	nt := r.Range(2, 5)
 	for k := 0; k < nt; k++ {
 		h := c05MHosts[r.Intn(len(c05MHosts))]
+		m := c05MMethods[r.Intn(len(c05MMethods))]
+		pth := paths[r.Intn(len(paths))]
+		if r.Chance(2, 3) && len(in.Rules) > 0 {
+			// aim at an existing entry: its rule's host, its path pattern, one of its methods
+			rule := in.Rules[r.Intn(len(in.Rules))]
+			if rule.Host != "" {
+				h = rule.Host
+			} else if rule.HostRegexp != "" {
+				h = c05MHosts[r.Intn(2)]
+			}
+			if len(rule.Paths) > 0 {
+				p := rule.Paths[r.Intn(len(rule.Paths))]
+				switch {
+				case p.Path != "":
+					pth = p.Path
+				case p.Prefix != "":
+					pth = p.Prefix + r.PickStr("", "/x", "b")
+				default:
+					pth = "/r12"
+				}
+				if len(p.Methods) > 0 && r.Chance(3, 4) {
+					m = p.Methods[r.Intn(len(p.Methods))]
+				}
+			}
+		}
 		if r.Chance(1, 8) {
 			h += ":8080"
 		}
-		triples = append(triples, triple{h, c05MMethods[r.Intn(len(c05MMethods))], paths[r.Intn(len(paths))]})
+		triples = append(triples, triple{h, m, pth})
 	}
 	if targetHost != "" {
 		triples = append(triples, triple{targetHost, "GET", "/a"}, triple{targetHost, "GET", "/a"})
